@@ -33,7 +33,21 @@ RULE = ("Exhaustive part: every integer triple with max|index| <= 6 (thorough 10
         "scale, set(), origin only), its handed-in/handed-out arrays overwritten, deep-copied, replaced by a new object, and "
         "queried again for the same planes / vectors / family; non-trivial: a plane or vector asked again after the cell of that "
         "object changed.  call_history = 2-5 complete cases of the clauses random/strings/family in one sequence, every call "
-        "judged when made and again when the sequence is repeated in another order; non-trivial as for the member cases.")
+        "judged when made and again when the sequence is repeated in another order; non-trivial as for the member cases.  "
+        "Cross-pollination round (generator classes that caught seeded regressions in other properties): ledger = 2-4 complete cases in one "
+        "process, every array handed in or out kept and compared bit for bit after each later call, then the caller overwrites its arguments / "
+        "the results in place and repeats calls (fresh arguments, same Box), non-trivial: a non-trivial member and an overwrite that took place; "
+        "box_history keeps its query results in the same kind of ledger.  Floating index arrays of whole numbers as float32 / float16 / big-endian "
+        "(label 'fnarrow', a refinement of the form 'float'; float16 up to 2048), float32 cell vectors, family-constructor parameters as Python ints "
+        "and numpy scalars (int8 ... int64, uint8/16, float16/32/64) with whole-number lengths up to the dtype's limit.  units = the same physical "
+        "cell (angstrom numbers x my own numericalunits size of the angstrom) under reset_units(named | seed | SI), judged before under the default or "
+        "another configuration and after under the restored default, optionally read from a Box data model; non-trivial: angstrom size beyond "
+        "10^+-1.5 working units.  near = family parameters with one relation 1e-12..1e-3 (relative) off its higher-symmetry value, default and "
+        "explicit rtol / atol; cells with tilts of 1e-12..1e-3 of the cell; plane indices 1e-12..1e-3 off whole numbers; 4-index sums 1e-12..1e-3 off "
+        "zero.  decades = 3-6 index rows spanning up to 24 decades (2^-30..2^30; planes x 1..9e4, reduce x 1..9e15) in one array, non-trivial: >= 8 "
+        "decades (planes >= 4).  structured = exact signed permutations of lattice vectors and Cartesian axes (cell['sym']; also 30 % of the cells of "
+        "ledger / units / decades), non-trivial: mixed-sign block or relabelled lattice vectors.  options_enum = ENUMERATED ordered pairs / triples of "
+        "the 16 centring calls, pairs of all_indices calls, pairs of family functions x tolerance options on one near-threshold Box.")
 ASSUMPTIONS = ["numpy linear algebra and numpy's text-to-float conversion are correct",
                "cells are right-handed (det > 0); the sense of the plane normal is only claimed for those",
                "R-centring: which of t1/t2 is 'obverse' is not documented, only that each is one of the two and that they differ",
@@ -43,14 +57,31 @@ ASSUMPTIONS = ["numpy linear algebra and numpy's text-to-float conversion are co
                "index magnitudes: up to the dtype's limits for 8/16-bit arrays, up to 1e5 for wider ones (beyond ~1.3e5 the lcm of the "
                "documented plane algorithm exceeds 2^53 for every input form, Python ints included)",
                "bool arrays are index arrays for the plane / vector / 3<->4 / centring conversions (0/1 indices) but not for reduce_indices ('array of ints')",
+               "family tolerances: 'rtol / atol : relative / absolute tolerance for testing box parameters' is read as numpy.isclose does (|x-y| <= atol + "
+               "rtol |y|); the is<family> docstring definitions are read literally, 'a != b != c' as all three lengths different - near-threshold cases are "
+               "generated only where that reading is unambiguous (one relation a~b, c~a or angle~90/120 perturbed) and nothing is asserted within a factor 3 "
+               "of a tolerance",
+               "atol is an absolute number in working units of length: under other working units it is passed as 1e-8 angstrom; the default (1e-8 working "
+               "units) is only claimed for lengths >= 0.1 working units - under metres the documented default makes every length equal to every other "
+               "(Box.tetragonal(4e-10, 5.5e-10).identifyfamily() = 'cubic'): documented behaviour, reported but not a finding",
+               "a cell whose lattice vectors were relabelled (tetragonal with the unique axis along a, ...) is not 'made by a family constructor': only "
+               "consistency of identifyfamily() with the predicates is asked there",
+               "plane indices that are not whole numbers: the documented refusal ('requires that the planar indices be integers') or the normal of the "
+               "nearest whole-number plane, nothing else; a 4-index sum off zero by >= 1e-6 of the largest index must be refused, one at rounding "
+               "level (64 eps) must be accepted",
+               "repeated identical calls return identical bits (numpy / BLAS are deterministic for these sizes)",
                "atheris is not importable in this restore (/verif/.deps absent): the byte-level target is replaced by "
                "Hypothesis text + mutated grammar strings (clause strings_fuzz)"]
 LEVEL_TEXT = ("All integer index triples up to |index| 6 (thorough 10) in 12 (40) cells of every crystal family are enumerated "
               "for the plane normal, zone law, 3<->4 index, centring and reduce clauses; random search covers larger indices, "
               "array shapes and input forms (among them every narrow / unsigned / big-endian integer dtype with indices up to the dtype's limits), random cells, index strings and family identification; histories on one Box object "
-              "(in-place changes through every public route between repeated queries) and sequences of module-level calls are searched randomly.")
+              "(in-place changes through every public route between repeated queries) and sequences of module-level calls are searched randomly; "
+              "result ledgers with caller-side overwrites, float32/float16 index arrays and numpy-scalar lattice parameters, working-unit configurations, "
+              "near-threshold parameters / tilts / indices, rows spanning many decades and exactly permuted cells are searched randomly, ordered "
+              "combinations of centring calls / all_indices calls / family functions with tolerance options are enumerated.")
 TECHNIQUE = ("exhaustive enumeration + Hypothesis (single calls, object histories against an own record of the cell, call sequences); "
-             "own reciprocal basis / zone law / a1,a2,a3,c basis / centring sets / gcd / regex grammar")
+             "own reciprocal basis / zone law / a1,a2,a3,c basis / centring sets / gcd / regex grammar / own reading of the documented family definitions; "
+             "bit-for-bit result ledger")
 WALL = {'quick': 75, 'thorough': 600}
 
 EPS = ref.EPS
@@ -63,6 +94,14 @@ K_V34_DTYPE = 'C16:vector3to4-vector4to3:integer-dtype-overflow'
 K_REDUCE_MIN = 'C16:reduce_indices:signed-dtype-minimum'
 # all_indices(maxindex = numpy unsigned scalar): -maxindex wraps
 K_ALLIDX_UNSIGNED = 'C16:all_indices:unsigned-scalar-maxindex'
+# cross-pollination round, class C (floating storage dtypes): vector3to4 / vector4to3 convert only INTEGER arrays to float64; a
+# float32 / float16 array of whole numbers goes through (2u-v)/3, 2U+V in its own dtype and the float64 result array carries
+# float32 (6e-8) / float16 (1e-3, inf beyond 65504) roundings: [uvw] -> [uvtw] -> [uvw] is no longer lossless
+K_V34_FLOAT = 'C16:vector3to4-vector4to3:float32-float16-storage-dtype'
+# class C (numpy-scalar lattice parameters): Box.set_abc (behind every family constructor and Box(a=, b=, c=, alpha=, ...)) does
+# b**2, b*c, c**2 and the cosines in the dtype of numpy-scalar arguments: np.int8(100)**2 wraps, float32 / float16 round
+K_SETABC_SCALAR = 'C16:family-constructors:numpy-scalar-parameters:set_abc-arithmetic-in-their-dtype'
+NARROWF = ('f32', 'f16', 'f32be')
 
 
 def _am():
@@ -121,6 +160,11 @@ def _arg(idx, form):
     if form == 'i32':
         return np.array(idx, dtype=np.int32)
     a = np.array(idx, dtype=np.int64)
+    if form in g16.FDTYPES:                              # float32 / float16 / big-endian floating array of whole numbers
+        f = a.astype(g16.FDTYPES[form][0])
+        if not np.array_equal(f.astype(np.float64), a.astype(np.float64)):
+            raise RuntimeError('harness: index block %r is not exactly representable as %s' % (idx, g16.FDTYPES[form][0]))
+        return f
     if form in g16.DTYPES:                               # narrow / unsigned / big-endian / bool integer array
         if not _fits(a, form):
             raise RuntimeError('harness: index block %r is not representable as %s' % (idx, g16.DTYPES[form][0]))
@@ -148,6 +192,9 @@ def _dt_range(form):
 
 def _fits(a, form):
     """can the integer block be stored in the dtype of that form"""
+    if form in g16.FDTYPES:
+        a = np.asarray(a, dtype=np.int64)
+        return a.size == 0 or bool(np.array_equal(a.astype(g16.FDTYPES[form][0]).astype(np.float64), a.astype(np.float64)))
     if form not in g16.DTYPES:
         return True
     a = np.asarray(a, dtype=np.int64)
@@ -198,7 +245,10 @@ def _untouched(arg, idx, what):
 
 def _shape_labels(case):
     f = case.get('form', 'int')
-    return {'shape_' + case['shape'], 'form_' + f} | ({'narrow'} if f in g16.DTYPES else set())
+    labs = {'shape_' + case['shape'], 'form_' + f} | ({'narrow'} if f in g16.DTYPES else set())
+    if f in g16.FDTYPES and case.get('den', 1) == 1:
+        labs.add('fnarrow')                              # (with a denominator the block goes in as a float64 quotient)
+    return labs
 
 
 _EXH_SIGNED = ('i8', 'i16', 'be16', 'i8', 'be32', 'i32w', 'be64', 'i8', 'i64w')
@@ -325,6 +375,8 @@ def _check_34(miller, T3, form=None):
     u, v = flat[:, 0], flat[:, 1]
     # known finding: 2u-v, 2v-u (3->4) / 2U+V, 2V+U (4->3) are formed in the dtype of the caller's integer array
     k3 = K_V34_DTYPE if (form is not None and _leaves(form, 2 * u, 2 * u - v, 2 * v, 2 * v - u)) else None
+    if form in NARROWF:
+        k3 = K_V34_FLOAT                                 # known finding: (2u-v)/3 evaluated in float32 / float16
     # planes
     p4 = miller.plane3to4(A3)
     ep4 = np.array([ref.p3to4(*t) for t in flat.tolist()], dtype=float).reshape(T3.shape[:-1] + (4,))
@@ -353,6 +405,8 @@ def _check_34(miller, T3, form=None):
     # 4 -> 3 -> 4 on the integer quadruples
     qf = form if (form is not None and _fits(Q, form)) else 'int'
     k4 = K_V34_DTYPE if (form is not None and _leaves(qf, 2 * Q[..., 0], 2 * Q[..., 0] + Q[..., 1], 2 * Q[..., 1], 2 * Q[..., 1] + Q[..., 0])) else None
+    if form in NARROWF:
+        k4 = K_V34_FLOAT                                 # known finding: 2U+V evaluated in float32 / float16
     q3 = miller.vector4to3(Qarg)
     e3 = np.array([[float(x) for x in ref.v4to3(*[Fraction(y) for y in q])] for q in Q.reshape(-1, 4).tolist()]).reshape(T3.shape)
     require(q3.shape == T3.shape and float(np.abs(q3 - e3).max()) == 0.0,
@@ -598,10 +652,10 @@ def _hex_or_refusal(fn, arg, hexa, what):
     try:
         out = fn(arg)
     except ValueError as e:
-        require(not hexa and 'Hexagonal indices given with non-hexagonal box' in str(e),
+        require(hexa is not True and 'Hexagonal indices given with non-hexagonal box' in str(e),
                 lambda: '%s: 4-index input in a %s cell raised ValueError(%s)' % (what, 'hexagonal' if hexa else 'non-hexagonal', e))
         return None
-    require(hexa, lambda: '%s: 4-index input accepted in a non-hexagonal cell' % what)
+    require(hexa is not False, lambda: '%s: 4-index input accepted in a non-hexagonal cell' % what)
     return out
 
 
@@ -662,6 +716,8 @@ def _do_vector(miller, box, V, hexa, idxl, via, four, form, den, labels, vpert=0
     if four and den == 1 and _leaves(form, 2 * Q[..., 0], 2 * Q[..., 0] + Q[..., 1], 2 * Q[..., 1], 2 * Q[..., 1] + Q[..., 0]):
         key = K_V34_DTYPE                                # known finding: vector4to3 works in the dtype of the caller's array
         labels.add('dt_overflow')
+    if four and den == 1 and form in NARROWF:
+        key = K_V34_FLOAT
     require(got.shape == idx.shape and float(np.abs(got - exp).max()) <= tol,
             lambda: 'vector_crystal_to_cartesian(%r%s) = %r, expected %r (tol %.3g)'
             % (np.asarray(arg).tolist(), (' as %s array' % arg.dtype) if isinstance(arg, np.ndarray) else '', got.tolist(), exp.tolist(), tol), key)
@@ -680,17 +736,20 @@ def oracle_random(case):
 
     if op in ('normal', 'vector'):
         cell = case['cell']
-        V = ref.cell_matrix(cell)
+        V = _cellV(cell)
         cond = float(np.linalg.cond(V))
-        box = am.Box(vects=V)
-        hexa = ref.is_hexagonal_cell(cell)
+        box, vpert = _mkbox(am, V, cell)
+        hexa = _hexa(cell)
         labels.add('fam_' + cell['family'])
         if cell.get('rot'):
             labels.add('rotated')
+        for x in ('sym', 'tilt'):
+            if cell.get(x):
+                labels.add('cell_' + x)
         nonorth = not ref.is_orthogonal_family(cell)
 
     if op == 'normal':
-        _do_normal(miller, box, V, cond, hexa, case['idx'], case['uvw'], case['via'], case['four'], case['form'], labels)
+        _do_normal(miller, box, V, cond, hexa, case['idx'], case['uvw'], case['via'], case['four'], case['form'], labels, vpert)
         if 'refusal_nonhex' in labels:
             return labels
         if (mixed and nonorth) or 'dt_overflow' in labels:
@@ -698,7 +757,7 @@ def oracle_random(case):
         return labels
 
     if op == 'vector':
-        _do_vector(miller, box, V, hexa, case['idx'], case['via'], case['four'], case['form'], case['den'], labels)
+        _do_vector(miller, box, V, hexa, case['idx'], case['via'], case['four'], case['form'], case['den'], labels, vpert)
         if 'refusal_nonhex' in labels:
             return labels
         if mixed and nonorth:
@@ -843,19 +902,21 @@ def oracle_fuzz(case):
 _PRED = ('cubic', 'hexagonal', 'tetragonal', 'rhombohedral', 'orthorhombic', 'monoclinic', 'triclinic')
 
 
-def _judge_family(box, expected, via, descr):
+def _judge_family(box, expected, via, descr, kw=None):
     """identifyfamily() names the family `expected` and exactly that is<family> predicate holds (expected None: the cell was
-    not made from family parameters; only consistency of the name with the predicates is asked).  descr: callable -> str"""
+    not made from family parameters; only consistency of the name with the predicates is asked).  descr: callable -> str.
+    kw: the documented tolerance arguments (rtol, atol) to pass, None = defaults"""
     am, miller = _am()
     from atomman.tools import crystalsystem as cs
+    kw = kw or {}
     with warnings.catch_warnings():
         warnings.simplefilter('ignore')
         if via == 'method':
-            name = box.identifyfamily()
-            preds = {f: bool(getattr(box, 'is' + f)()) for f in _PRED}
+            name = box.identifyfamily(**kw)
+            preds = {f: bool(getattr(box, 'is' + f)(**kw)) for f in _PRED}
         else:
-            name = cs.identifyfamily(box)
-            preds = {f: bool(getattr(cs, 'is' + f)(box)) for f in _PRED}
+            name = cs.identifyfamily(box, **kw)
+            preds = {f: bool(getattr(cs, 'is' + f)(box, **kw)) for f in _PRED}
     true = sorted(f for f, v in preds.items() if v)
     if expected is None:
         require(name is None or (name in _PRED and preds[name]), lambda: '%s: identifyfamily() = %r but predicates true for %r' % (descr(), name, true))
@@ -866,20 +927,78 @@ def _judge_family(box, expected, via, descr):
     return name
 
 
+_NLEN = {'cubic': 1, 'tetragonal': 2, 'hexagonal': 2, 'trigonal': 1, 'orthorhombic': 3, 'monoclinic': 3, 'triclinic': 3}
+_PT = {'pyint': int, 'int8': np.int8, 'uint8': np.uint8, 'int16': np.int16, 'uint16': np.uint16, 'int32': np.int32, 'int64': np.int64,
+       'f32': np.float32, 'f16': np.float16, 'f64': np.float64}
+
+
+def _ctor_abc(ctor, p):
+    """the six lattice parameters the documented constructor arguments stand for"""
+    if ctor == 'cubic':
+        return [p[0], p[0], p[0], 90.0, 90.0, 90.0]
+    if ctor == 'tetragonal':
+        return [p[0], p[0], p[1], 90.0, 90.0, 90.0]
+    if ctor == 'hexagonal':
+        return [p[0], p[0], p[1], 90.0, 90.0, 120.0]
+    if ctor == 'trigonal':
+        return [p[0], p[0], p[0], p[1], p[1], p[1]]
+    if ctor == 'orthorhombic':
+        return [p[0], p[1], p[2], 90.0, 90.0, 90.0]
+    if ctor == 'monoclinic':
+        return [p[0], p[1], p[2], 90.0, p[3], 90.0]
+    return list(p)
+
+
 def oracle_family(case):
     am, miller = _am()
     from atomman.tools import crystalsystem as cs
-    ctor, p = case['ctor'], case['params']
-    box = getattr(am.Box, ctor)(*p)
+    ctor, p = case['ctor'], list(case['params'])
+    scale = case.get('scale')                            # working-unit plans: lengths are angstrom numbers x the size of the angstrom
+    if scale is not None:
+        p = [x * scale if i < _NLEN[ctor] else x for i, x in enumerate(p)]
     expected = 'rhombohedral' if ctor == 'trigonal' else ctor
     labels = {'fam_' + expected}
+    pt = case.get('ptype')
+    if pt:
+        # class C: whole-number parameters as Python ints / numpy scalars.  Premise of the family claim: the constructor built
+        # the cell with the lattice parameters it was given
+        labels.update({'ptyped', 'ptype_' + pt})
+        key = None if pt in ('pyint', 'f64') else K_SETABC_SCALAR
+        args = [_PT[pt](x) for x in p]
+        what = 'Box.%s(%s)' % (ctor, ', '.join('%s(%r)' % (pt, x) for x in p))
+        try:
+            with warnings.catch_warnings():
+                warnings.simplefilter('ignore')
+                box = getattr(am.Box, ctor)(*args)
+                got = [float(getattr(box, q)) for q in ('a', 'b', 'c', 'alpha', 'beta', 'gamma')]
+        except Exception as e:
+            if key is None:
+                raise
+            raise Violation('%s raised %s(%s)' % (what, type(e).__name__, e), key)
+        want = [float(x) for x in _ctor_abc(ctor, p)]
+        ok = all(abs(g - w) <= 1e-10 * w for g, w in zip(got[:3], want[:3])) and all(abs(g - w) <= 1e-8 for g, w in zip(got[3:], want[3:]))
+        require(ok, lambda: '%s has a, b, c, alpha, beta, gamma = %r, not the parameters given %r' % (what, got, want), key)
+    else:
+        box = getattr(am.Box, ctor)(*p)
     if case['rot']:
         R = gens.rotation_matrix(*case['rot'])
         box = am.Box(vects=np.asarray(box.vects) @ R.T)
         labels.add('rotated')
+    if case.get('via_model'):
+        box = am.Box(model=box.model())
     labels.add('via_' + case['via'])
-    _judge_family(box, expected, case['via'],
-                  lambda: 'Box.%s(%s)%s' % (ctor, ', '.join(repr(x) for x in p), ' rotated' if case['rot'] else ''))
+    descr = lambda: 'Box.%s(%s)%s' % (ctor, ', '.join(repr(x) for x in p), ' rotated' if case['rot'] else '')
+    if scale is None:
+        _judge_family(box, expected, case['via'], descr)
+    else:
+        # the documented absolute tolerance is a number in working units of LENGTH (it is applied to a, b, c as they are): passed
+        # as 1e-8 angstrom.  With the default (1e-8 working units) the claim is only made where that is still small against
+        # rtol x the lengths, i.e. for lengths >= 0.1 working units - under metres every length equals every other within 1e-8,
+        # which is what the docstring's 'atol : absolute tolerance for testing box parameters, default 1e-8' says it does
+        _judge_family(box, expected, case['via'], descr, {'atol': 1e-8 * scale})
+        if min(p[:_NLEN[ctor]]) >= 0.1:
+            _judge_family(box, expected, case['via'], descr)
+            labels.add('default_atol')
     if case['rot'] or expected in ('hexagonal', 'rhombohedral', 'monoclinic', 'triclinic'):
         labels.add('nt')
     return labels
@@ -895,9 +1014,101 @@ _VPERT_ABC = 32 * EPS     # Box.set(a=...) builds xy, xz, yz, lz with other (equ
 
 
 def _cellV(cell):
+    """my matrix (rows a, b, c) of a cell: whole-number vectors or family parameters (+ rotation), then - cross-pollination
+    round - tiny tilts ('tilt': fractions of the largest entry added off the diagonal), an exact signed permutation of lattice
+    vectors and Cartesian axes ('sym'), an overall length factor ('scale': the size of the angstrom in the working units)"""
     if 'vects' in cell:
-        return np.array(cell['vects'], dtype=float)
-    return ref.cell_matrix(cell)
+        V = np.array(cell['vects'], dtype=float)
+    else:
+        V = ref.cell_matrix(cell)
+    t = cell.get('tilt')
+    if t:
+        m = float(np.abs(V).max())
+        V = V.copy()
+        for (i, j), d in zip(((1, 0), (2, 0), (2, 1), (0, 1), (0, 2), (1, 2)), t):
+            V[i, j] += d * m
+    sy = cell.get('sym')
+    if sy:
+        V = (V[sy['rp'], :] * np.array(sy['rs'], dtype=float)[:, None])[:, sy['cp']] * np.array(sy['cs'], dtype=float)[None, :]
+        if not np.linalg.det(V) > 0:
+            raise RuntimeError('harness: sym %r makes the cell left-handed' % (sy,))
+    if cell.get('scale') is not None:
+        V = V * float(cell['scale'])
+    return V
+
+
+def _rows_relabelled(cell):
+    sy = cell.get('sym')
+    return bool(sy) and (list(sy['rp']) != [0, 1, 2] or list(sy['rs']) != [1, 1, 1])
+
+
+def _hexa(cell):
+    """is the cell hexagonal in the documented sense (a = b, alpha = beta = 90, gamma = 120): by construction for plain family
+    cells; for relabelled lattice vectors / tiny tilts from my own lattice parameters and the documented tolerances - such cells
+    inside the factor-3 band around a tolerance the answer is None (4-index input may then be accepted or refused)"""
+    if 'abc' not in cell:
+        return False
+    if not (_rows_relabelled(cell) or cell.get('tilt')):
+        return ref.is_hexagonal_cell(cell)
+    return _model_preds(_params_of(_cellV(cell)), 1e-5, 1e-8)['hexagonal']       # None: inside the band, either answer is accepted
+
+
+def _mkbox(am, V, cell):
+    """the Box of the cell; with cell['via_model'] through the data model of another Box (-> 4 eps relative on the vectors)"""
+    if cell.get('via_model'):
+        return am.Box(model=am.Box(vects=V).model()), 8 * EPS
+    return am.Box(vects=V), 0.0
+
+
+def _params_of(V):
+    """lattice parameters a, b, c, alpha, beta, gamma (degrees) of the rows of V, my own formulas"""
+    L = [math.sqrt(float(V[i] @ V[i])) for i in range(3)]
+    ang = [math.degrees(math.acos(max(-1.0, min(1.0, float(V[i] @ V[j]) / (L[i] * L[j]))))) for i, j in ((1, 2), (0, 2), (0, 1))]
+    return L + ang
+
+
+def _cl(x, y, rtol, atol):
+    """x = y within the documented relative / absolute tolerance (numpy.isclose reading: |x-y| <= atol + rtol |y|): True / False
+    outside a factor-3 band around the threshold, None inside it"""
+    d, t = abs(x - y), atol + rtol * abs(y)
+    return True if d <= t / 3 else (False if d >= 3 * t else None)
+
+
+def _and(*v):
+    if any(x is False for x in v):
+        return False
+    return None if any(x is None for x in v) else True
+
+
+def _not(x):
+    return None if x is None else (not x)
+
+
+def _model_preds(p, rtol=1e-5, atol=1e-8):
+    """the seven documented family definitions (docstrings of Box.is<family>) applied to lattice parameters p with the documented
+    tolerance arguments; values True / False / None (= too close to a tolerance to call)"""
+    a, b, c, al, be, ga = p
+    ab, ac, bc = _cl(a, b, rtol, atol), _cl(a, c, rtol, atol), _cl(b, c, rtol, atol)
+    a90, b90, g90 = (_cl(x, 90.0, rtol, atol) for x in (al, be, ga))
+    alldiff = _and(_not(ab), _not(ac), _not(bc))
+    return {'cubic': _and(ab, ac, a90, b90, g90),
+            'hexagonal': _and(ab, a90, b90, _cl(ga, 120.0, rtol, atol)),
+            'tetragonal': _and(ab, _not(ac), a90, b90, g90),
+            'rhombohedral': _and(ab, ac, _cl(al, be, rtol, atol), _cl(al, ga, rtol, atol), _not(a90)),
+            'orthorhombic': _and(alldiff, a90, b90, g90),
+            'monoclinic': _and(alldiff, a90, _not(b90), g90),
+            'triclinic': _and(alldiff, _not(a90), _not(b90), _not(g90))}
+
+
+def _model_name(pr):
+    """identifyfamily(): the first documented family (cubic, hexagonal, tetragonal, rhombohedral, orthorhombic, monoclinic, triclinic)
+    whose definition holds, None if none does; 'undecided' when a test before the first match is too close to call"""
+    for f in _PRED:
+        if pr[f] is None:
+            return 'undecided'
+        if pr[f]:
+            return f
+    return None
 
 
 def _vects_arg(V, form, cell):
@@ -907,6 +1118,8 @@ def _vects_arg(V, form, cell):
         l = [list(r) for r in cell['vects']] if whole else V.tolist()
         return l if form == 'list' else _tuplify(l)
     a = np.array(cell['vects'], dtype=np.int64) if (whole and form == 'int') else np.array(V, dtype=float)
+    if form == 'f32':
+        return a.astype(np.float32)                      # the caller's V is already rounded to float32 (_plan_mod)
     if form == 'fortran':
         return np.asfortranarray(a)
     if form == 'nc':
@@ -938,6 +1151,8 @@ def _plan_mod(am, step):
     hows = _HOW_VECTS if (cell.get('rot') or 'vects' in cell) else _HOW_ALL
     how = hows[step['how'] % len(hows)]
     form, origin, omit = step['form'], step.get('origin'), step.get('omit')
+    if form == 'f32' and how in ('vects_attr', 'set_vects', 'set_avect'):
+        V = V.astype(np.float32).astype(np.float64)      # class C: the vectors are handed over as a float32 array (exact values)
     if how == 'vects_attr':
         return 'attr', _vects_arg(V, form, cell), V, 0.0, how
     if how == 'set_vects':
@@ -988,6 +1203,7 @@ class _Held:
         self.ver = 0
         self.seen = {'normal': {}, 'vector': {}, 'family': {}}
         self.fresh = True
+        self.ledger = None          # shared _Ledger of the history (set by the oracle)
         self.put(V, cell, vpert, True)
 
     def put(self, V, cell, vpert, changed):
@@ -1085,6 +1301,8 @@ def _query_held(miller, h, q, planes, uvw, labels):
         four = False
     if q['form'] in g16.DTYPES:
         labels.add('narrow')
+    if q['form'] in g16.FDTYPES:
+        labels.add('fnarrow')
     if q['shape'] == '0':
         rows = rows[:1]
     idxl = _shaped(rows, q['shape'], q['perm'])
@@ -1099,6 +1317,8 @@ def _query_held(miller, h, q, planes, uvw, labels):
     if q['perm'] % 3 == 0 and isinstance(got, np.ndarray) and got.flags.writeable:
         got[...] = 9.75                                  # the caller re-uses the result array
         labels.add('result_overwritten')
+    elif h.ledger is not None and h.ledger.add('%s_crystal_to_cartesian(%r)' % ('plane' if what == 'normal' else 'vector', idxl), got) is not None:
+        labels.add('ledger')                             # class A: kept, and compared bit for bit after every later step
 
 
 def _final_pass(miller, h, planes, uvw, labels):
@@ -1119,13 +1339,20 @@ def oracle_box_history(case):
     labels = {'holder_' + case['holder'], 'steps=%d' % min(len(case['steps']), 12)}
     trail = []
     others = []
+    led = _Ledger()
     try:
         h, d = _build_held(am, {'cell': case['cell'], 'how': case.get('how0', 1), 'form': case['form0'], 'origin': None, 'omit': False},
                            case['holder'])
         trail.append(d)
+        if case['form0'] == 'f32':
+            labels.add('vform_f32')
         nmod = 0
         for stp in case['steps']:
             k = stp['k']
+            h.ledger = led
+            led.check(' -> '.join(trail[-2:]))
+            if stp.get('form') == 'f32' and k in ('mod', 'new'):
+                labels.add('vform_f32')
             if k == 'q':
                 trail.append('%s%s(%s)' % (stp['what'], {0: '', 1: '/4-index', 2: '/4-index if hexagonal'}[stp['four']] if stp['what'] in ('normal', 'vector') else '', stp['via']))
                 _query_held(miller, h, stp, planes, uvw, labels)
@@ -1208,7 +1435,9 @@ def oracle_box_history(case):
             else:
                 raise ValueError('unknown step %r' % (stp,))
         trail.append('final')
+        led.check(' -> '.join(trail[-2:]))
         _final_pass(miller, h, planes, uvw, labels)
+        led.check('the final queries')
         for o in others:
             trail.append('final(original of the copy)')
             _final_pass(miller, o, planes, uvw, set())
@@ -1245,7 +1474,7 @@ def oracle_call_history(case):
         done.append(_opname(kind, sub))
         if pos < n:
             first.append(lab)
-            labels.update(x for x in lab if x.startswith(('op_', 'form_', 'set_', 'fam_')) or x in ('four', 'refusal_nonhex', 'rotated', 'fractional', 'narrow', 'dt_overflow'))
+            labels.update(x for x in lab if x.startswith(('op_', 'form_', 'set_', 'fam_')) or x in ('four', 'refusal_nonhex', 'rotated', 'fractional', 'narrow', 'fnarrow', 'dt_overflow'))
             if kind != 'random':
                 labels.add('op_' + kind)
     kinds = {_opname(k, s) for k, s in ops}
@@ -1275,6 +1504,689 @@ def jd(x):
     return json.dumps(x, sort_keys=True)
 
 
+# ============================================================================= cross-pollination round (classes A-H)
+#
+#  A result ledger            clause `ledger` (module functions, several Box objects) and box_history (label 'ledger'): every array
+#                             a call returned is kept with a private copy and compared bit for bit after every later call
+#  B caller-side mutation     clause `ledger` 'post' steps: the caller overwrites the arrays it handed in / got back, then repeats
+#                             the calls (fresh arguments, same Box object); box_history already spoils handed-in vectors and results
+#  C storage / input dtypes   integer dtypes: round 4 ('narrow'); now float32 / float16 / big-endian floating index arrays of whole
+#                             numbers ('fnarrow', all clauses drawing a form), float32 cell vectors (box_history 'vform_f32'),
+#                             lattice parameters as Python ints / numpy scalars up to the dtype's limit (family 'ptyped')
+#  D working-unit configuration  clause `units`: the same physical cell under reset_units(named | seed | SI), before / after the default
+#  E near-threshold values    clause `near`: family parameters 1e-12 ... 1e-3 off a higher-symmetry family (own reading of the documented
+#                             definitions + tolerances), tiny tilts, almost-integer plane indices, 4-index sums almost zero
+#  F many decades in one call clause `decades`
+#  G exactly structured inputs  cells with exact signed permutations of lattice vectors / Cartesian axes (cell['sym']; clause `structured`
+#                             and a share of the cells of ledger / units / near / decades), mirrored and cyclically relabelled cases
+#  H enumerated option combinations  clause `options_enum`
+
+def _bits(a):
+    a = np.asarray(a)
+    return (a.shape, a.dtype.str, a.tobytes())
+
+
+class _Ledger:
+    """every array handed out by atomman (and every array handed in) with a private copy; check() demands bit-for-bit identity"""
+    def __init__(self):
+        self.rows = []          # [what, object, bits, kind('out'|'in'), alive]
+
+    def add(self, what, obj, kind='out'):
+        if isinstance(obj, np.ndarray):
+            self.rows.append([what, obj, _bits(obj), kind, True])
+            return len(self.rows) - 1
+        return None
+
+    def drop(self, i):
+        if i is not None:
+            self.rows[i][4] = False
+
+    def check(self, after):
+        for what, obj, bits, kind, alive in self.rows:
+            if alive and _bits(obj) != bits:
+                old = np.frombuffer(bits[2], dtype=np.dtype(bits[1])).reshape(bits[0])
+                if kind == 'out':
+                    raise Violation('the array returned by %s changed after %s: was %r, is now %r' % (what, after, old.tolist(), np.asarray(obj).tolist()))
+                raise Violation('the array handed to %s was changed by %s: was %r, is now %r' % (what, after, old.tolist(), np.asarray(obj).tolist()))
+
+
+def _four_of(idx):
+    idx = np.asarray(idx, dtype=np.int64)
+    return np.stack([idx[..., 0], idx[..., 1], -(idx[..., 0] + idx[..., 1]), idx[..., 2]], axis=-1)
+
+
+def _raw_calls(am, miller, kind, sub, keep):
+    """the atomman calls of one complete sub-case of the clauses random / strings, NOT judged here (the clause oracle has judged
+    the case just before): -> [(description, [arrays handed in], array returned), ...].  keep: {'box': Box} re-used when present."""
+    if kind == 'strings':
+        return [('fromstring(%r)' % sub['text'], [], miller.fromstring(sub['text']))]
+    op, form = sub['op'], sub['form']
+    out = []
+    if op in ('normal', 'vector'):
+        box = keep.get('box')
+        if box is None:
+            box = keep['box'] = _mkbox(am, _cellV(sub['cell']), sub['cell'])[0]
+        den = sub.get('den', 1) if op == 'vector' else 1
+        l = _four_of(sub['idx']).tolist() if sub['four'] else sub['idx']
+        arg = (np.array(l, dtype=np.int64) / den) if den != 1 else _arg(l, form)
+        name = ('plane' if op == 'normal' else 'vector') + '_crystal_to_cartesian'
+        fn = getattr(box, name) if sub['via'] == 'box' else (lambda a: getattr(miller, name)(a, box))
+        try:
+            got = fn(arg)
+        except ValueError:
+            return out                                   # documented refusal of 4-index input (judged by the clause oracle)
+        out.append(('%s(%r)' % (name, l), [arg], got))
+        if op == 'normal':
+            u = _arg_fit(sub['uvw'], form)
+            out.append(('vector_crystal_to_cartesian(%r)' % (sub['uvw'],), [u], box.vector_crystal_to_cartesian(u)))
+        return out
+    if op == 'conv34':
+        arg = _arg(sub['idx'], form)
+        p4 = miller.plane3to4(arg)
+        out.append(('plane3to4(%r)' % (sub['idx'],), [arg], p4))
+        out.append(('plane4to3(plane3to4(%r))' % (sub['idx'],), [p4], miller.plane4to3(p4)))
+        v4 = miller.vector3to4(arg)
+        out.append(('vector3to4(%r)' % (sub['idx'],), [arg], v4))
+        out.append(('vector4to3(vector3to4(%r))' % (sub['idx'],), [v4], miller.vector4to3(v4)))
+        return out
+    if op == 'centering':
+        s, den = sub['setting'], sub['den']
+        arg = (np.array(sub['idx'], dtype=np.int64) / den) if den != 1 else _arg(sub['idx'], form)
+        for fn in (miller.vector_conventional_to_primitive, miller.vector_primitive_to_conventional):
+            out.append(('%s(%r/%d, setting=%r)' % (fn.__name__, sub['idx'], den, s), [arg], fn(arg, setting=s)))
+        I = np.eye(3)
+        for fn in (miller.vector_conventional_to_primitive, miller.vector_primitive_to_conventional):
+            out.append(('%s(identity, setting=%r)' % (fn.__name__, s), [I], fn(I, setting=s)))
+        return out
+    if op == 'reduce':
+        A = np.array(sub['idx'], dtype=np.int64) * sub['mult']
+        if sub['four']:
+            A = _four_of(A)
+        arg = _arg(A.tolist(), form)
+        out.append(('reduce_indices(%r)' % (A.tolist(),), [arg], miller.reduce_indices(arg)))
+        return out
+    raise ValueError('unknown op %r' % op)
+
+
+def _overwrite(a, v):
+    """the caller re-uses an array of its own: True if something was written"""
+    if isinstance(a, np.ndarray) and a.flags.writeable and a.size:
+        a[...] = (True if a.dtype.kind == 'b' else v)
+        return True
+    return False
+
+
+def oracle_ledger(case):
+    am, miller = _am()
+    ops = case['ops']
+    labels = {'len=%d' % len(ops)}
+    led = _Ledger()
+    calls = []                  # per op: [(what, [ledger index of ins], ledger index of out, bits of the first result), ...]
+    keeps = []
+    trail = []
+    nt = False
+
+    def run(i, keep, tag):
+        kind, sub = ops[i]
+        lab = _SUB[kind](sub)                            # judged by the clause the sub-case belongs to
+        rec = []
+        for what, ins, got in _raw_calls(am, miller, kind, sub, keep):
+            rec.append((what, [led.add(what, a, 'in') for a in ins], led.add(what, got, 'out'), _bits(got)))
+        trail.append('%s%s' % (_opname(kind, sub), tag))
+        led.check(trail[-1])
+        return lab, rec
+
+    try:
+        for i in range(len(ops)):
+            keep = {}
+            lab, rec = run(i, keep, '')
+            calls.append(rec)
+            keeps.append(keep)
+            nt = nt or 'nt' in lab
+            labels.update(x for x in lab if x.startswith(('op_', 'form_')) or x in ('four', 'refusal_nonhex', 'narrow', 'fnarrow', 'cell_sym', 'cell_tilt', 'fractional'))
+            if ops[i][0] == 'strings':
+                labels.add('op_strings')
+        for what, j in case['post']:
+            j = j % len(ops)
+            rec = calls[j]
+            if what == 0:
+                # the caller overwrites, in place, the arrays it handed in: no result may move
+                done = False
+                for w, ins, o, b in rec:
+                    for k in ins:
+                        if k is not None and led.rows[k][4] and _overwrite(led.rows[k][1], 7):
+                            # (an argument can itself be an earlier result - plane4to3(p4): it is then the caller's to overwrite)
+                            for r in led.rows:
+                                if r[1] is led.rows[k][1]:
+                                    r[4] = False
+                            done = True
+                if done:
+                    labels.add('spoil_in')
+                    trail.append('caller overwrites the arguments of call %d' % (j + 1))
+                    led.check(trail[-1])
+            elif what == 1:
+                done = False
+                for w, ins, o, b in rec:
+                    if o is not None and led.rows[o][4] and _overwrite(led.rows[o][1], 9.75):
+                        for r in led.rows:
+                            if r[1] is led.rows[o][1]:
+                                r[4] = False
+                        done = True
+                if done:
+                    labels.add('spoil_out')
+                    trail.append('caller overwrites the results of call %d' % (j + 1))
+                    led.check(trail[-1])
+            else:
+                same = what == 3 and 'box' in keeps[j]
+                lab, rec2 = run(j, keeps[j] if same else {}, ' again' + (' on the same Box' if same else ''))
+                labels.add('recall_same_box' if same else 'recall')
+                for (w, ins, o, b), (w2, ins2, o2, b2) in zip(rec, rec2):
+                    require(b == b2, lambda: 'the same call, %s, returned %r the first time and %r after [%s]'
+                            % (w, np.frombuffer(b[2], dtype=np.dtype(b[1])).reshape(b[0]).tolist(),
+                               np.frombuffer(b2[2], dtype=np.dtype(b2[1])).reshape(b2[0]).tolist(), ' -> '.join(trail)))
+        # every call once more, in reverse order, with fresh arguments and objects: judged, and bit-identical to its first result
+        for i in reversed(range(len(ops))):
+            lab, rec2 = run(i, {}, ' (final)')
+            for (w, ins, o, b), (w2, ins2, o2, b2) in zip(calls[i], rec2):
+                require(b == b2, lambda: 'the same call, %s, returned %r the first time and %r at the end of [%s]'
+                        % (w, np.frombuffer(b[2], dtype=np.dtype(b[1])).reshape(b[0]).tolist(),
+                           np.frombuffer(b2[2], dtype=np.dtype(b2[1])).reshape(b2[0]).tolist(), ' -> '.join(trail)))
+    except Violation as e:
+        raise Violation('ledger [%s]: %s' % (' -> '.join(trail), e.detail), e.key)
+    labels.add('arrays=%d' % min(20, 5 * (len(led.rows) // 5)))
+    if len({_opname(k, s) for k, s in ops}) > 1:
+        labels.add('several_kinds')
+    if nt and labels & {'spoil_in', 'spoil_out'}:
+        labels.add('nt')
+    return labels
+
+
+# ----------------------------------------------------------------------------- clause units (class D)
+
+def oracle_units(case):
+    """the sub-case (plane normals + zone law / vectors in one cell, or family identification) for the same PHYSICAL cell under the
+    working units of the plan: first `pre` (when given), then W, then (back) the restored default - one process, same oracles.
+    The size of the angstrom in the working units is my own numericalunits product, not a unitconvert call."""
+    am, miller = _am()
+    import atomman.unitconvert as uc
+    import numericalunits as nu
+    plan, kind = case['plan'], case['kind']
+    labels = {'kind_' + kind, 'W_' + plan['W']['kind']}
+
+    def run():
+        L = float(nu.angstrom)
+        if kind == 'family':
+            sub = dict(case['sub'], scale=L, via_model=case['via_model'])
+            lab = oracle_family(sub)
+        else:
+            sub = dict(case['sub'], cell=dict(case['sub']['cell'], scale=L, via_model=case['via_model']))
+            lab = oracle_random(sub)
+        return L, lab
+
+    stage = 'start'
+    try:
+        if plan['pre'] is not None:
+            stage = 'under pre = %r' % (plan['pre'],)
+            g16.apply_units(uc, plan['pre'])
+            run()
+            labels.add('pre_default' if plan['pre'] == g16.DEFAULT_CFG else 'pre_other')
+        stage = 'under W = %r%s' % (plan['W'], '' if plan['pre'] is None else ' after pre = %r' % (plan['pre'],))
+        g16.apply_units(uc, plan['W'])
+        L, lab = run()
+        labels.add('L_1e%d' % (3 * int(math.floor(math.log10(L) / 3.0))))
+        labels.update(x for x in lab if x.startswith(('op_', 'fam_')) or x in ('four', 'refusal_nonhex', 'rotated', 'cell_sym', 'cell_tilt', 'default_atol', 'fnarrow'))
+        if plan['back']:
+            stage = 'under the default units after W = %r' % (plan['W'],)
+            g16.restore_units(uc)
+            run()
+            labels.add('back')
+    except Violation as e:
+        raise Violation('%s: %s' % (stage, e.detail), e.key)
+    finally:
+        g16.restore_units(uc)
+    if case['via_model']:
+        labels.add('via_model')
+    if 'refusal_nonhex' not in lab and (abs(math.log10(L)) >= 1.5):
+        labels.add('nt')
+    return labels
+
+
+# ----------------------------------------------------------------------------- clause near (class E)
+
+def _near_abc(case):
+    """lattice parameters of a `near` family case: the generic parameters with ONE relation replaced by 'equal up to delta'"""
+    a, b, c, al, be, ga = case['abc']
+    d, base = case['delta'], case['base']
+    if base == 'tetragonal':
+        return 'tetragonal', [a, a * (1 + d)], [a, a, a * (1 + d), 90.0, 90.0, 90.0]
+    if base == 'trigonal':
+        x = 90.0 * (1 + d)
+        return 'trigonal', [a, x], [a, a, a, x, x, x]
+    if base == 'orthorhombic':
+        return 'orthorhombic', [a, a * (1 + d), c], [a, a * (1 + d), c, 90.0, 90.0, 90.0]
+    if base == 'monoclinic':
+        return 'monoclinic', [a, b, c, 90.0 * (1 + d)], [a, b, c, 90.0, 90.0 * (1 + d), 90.0]
+    if base == 'triclinic':
+        return 'triclinic', [a, a * (1 + d), c, al, be, ga], [a, a * (1 + d), c, al, be, ga]
+    if base == 'hex_ab':
+        return None, None, [a, a * (1 + d), c, 90.0, 90.0, 120.0]
+    return None, None, [a, a, c, 90.0, 90.0, 120.0 * (1 + d)]
+
+
+def _judge_family_model(box, p, via, kw, descr, labels):
+    """every is<family> predicate and identifyfamily() against my own reading of the documented definitions and tolerance arguments,
+    wherever that reading is not within a factor 3 of a tolerance"""
+    am, miller = _am()
+    from atomman.tools import crystalsystem as cs
+    kw = kw or {}
+    pr = _model_preds(p, kw.get('rtol', 1e-5), kw.get('atol', 1e-8))
+    with warnings.catch_warnings():
+        warnings.simplefilter('ignore')
+        if via == 'method':
+            name = box.identifyfamily(**kw)
+            got = {f: bool(getattr(box, 'is' + f)(**kw)) for f in _PRED}
+        else:
+            name = cs.identifyfamily(box, **kw)
+            got = {f: bool(getattr(cs, 'is' + f)(box, **kw)) for f in _PRED}
+    for f in _PRED:
+        if pr[f] is None:
+            labels.add('band')
+            continue
+        require(got[f] == pr[f], lambda: '%s: is%s(%s) = %r; with a, b, c, alpha, beta, gamma = %r the documented definition and tolerances give %r'
+                % (descr(), f, ', '.join('%s=%r' % kv for kv in sorted(kw.items())), got[f], p, pr[f]))
+    want = _model_name(pr)
+    if want != 'undecided':
+        require(name == want, lambda: '%s: identifyfamily(%s) = %r; with a, b, c, alpha, beta, gamma = %r the documented definitions and tolerances give %r'
+                % (descr(), ', '.join('%s=%r' % kv for kv in sorted(kw.items())), name, p, want))
+        labels.add('name_' + str(want))
+    require(name is None or (name in _PRED and got[name]), lambda: '%s: identifyfamily() = %r but that predicate is False' % (descr(), name))
+    return pr
+
+
+def oracle_near(case):
+    am, miller = _am()
+    kind = case['kind']
+    labels = {'kind_' + kind}
+    if kind == 'tilt':
+        lab = oracle_random(case['sub'])
+        t = [abs(x) for x in case['sub']['cell']['tilt'] if x]
+        labels.update(x for x in lab if x.startswith(('op_', 'form_', 'br_')) or x in ('cell_sym', 'in_zone'))
+        labels.add('tilt_1e%d' % int(math.floor(math.log10(min(t)))))
+        if min(t) <= 4e-9:
+            labels.add('in_cleanup_window')
+        if 'nt' in lab or min(t) >= 1e-8:
+            labels.add('nt')
+        return labels
+
+    if kind == 'family':
+        ctor, cp, p = _near_abc(case)
+        d = case['delta']
+        labels.update({'base_' + case['base'], 'build_' + case['build'], 'delta_1e%d' % int(math.floor(math.log10(abs(d))))})
+        cell = {'family': 'near', 'abc': p, 'rot': case['rot'] if case['build'] == 'vects_rot' else None}
+        V = ref.cell_matrix(cell)
+        if case['build'] == 'ctor':
+            box = getattr(am.Box, ctor)(*cp) if ctor else am.Box(a=p[0], b=p[1], c=p[2], alpha=p[3], beta=p[4], gamma=p[5])
+            vpert = _VPERT_ABC
+        else:
+            box = am.Box(vects=V)
+            vpert = 0.0
+        descr = lambda: 'Box %s with a, b, c, alpha, beta, gamma = %r' % (case['build'], p)
+        kw = case['opts']
+        if kw:
+            labels.add('opts')
+        # the parameters the tests see: recomputed from my vectors (rounding of the construction included: 1e-16, far inside a band)
+        pr = _judge_family_model(box, _params_of(V), case['via'], kw, descr, labels)
+        if abs(d) <= 3e-6:
+            labels.add('coincident')
+        elif abs(d) >= 3e-5:
+            labels.add('distinct')
+        # plane normals and vectors in that cell; 4-index input is accepted exactly when the cell is hexagonal (default tolerances)
+        hexa = _model_preds(_params_of(V))['hexagonal']
+        cond = float(np.linalg.cond(V))
+        four = case['base'].startswith('hex') and case['sel'] % 2 == 0
+        sub = set()
+        if case['sel'] < 5:
+            _do_normal(miller, box, V, cond, hexa, case['idx'], case['uvw'], 'box', four, 'int', sub, vpert)
+        else:
+            _do_vector(miller, box, V, hexa, case['idx'], 'miller', four, 'int', 1, sub, vpert)
+        if four:
+            labels.add('four_refused' if 'refusal_nonhex' in sub else ('four_band' if hexa is None else 'four_accepted'))
+        labels.add('nt')
+        return labels
+
+    if kind == 'almost_int':
+        cell = case['cell']
+        V = _cellV(cell)
+        cond = float(np.linalg.cond(V))
+        box = am.Box(vects=V)
+        idx = np.array(case['idx'], dtype=np.int64)
+        eps = np.array(case['eps'], dtype=float).reshape(idx.shape)
+        arg = idx + eps * np.maximum(1, np.abs(idx))
+        fn = box.plane_crystal_to_cartesian if case['via'] == 'box' else (lambda a: miller.plane_crystal_to_cartesian(a, box))
+        emax = float(np.abs(eps).max())
+        labels.add('eps_0' if emax == 0 else 'eps_1e%d' % int(math.floor(math.log10(emax))))
+        try:
+            got = fn(arg)
+        except ValueError as e:
+            require('Indices must be integers' in str(e), lambda: 'plane_crystal_to_cartesian(%r) raised ValueError(%s)' % (arg.tolist(), e))
+            require(emax > 0, lambda: 'plane_crystal_to_cartesian refused the whole-number float indices %r' % (arg.tolist(),))
+            labels.add('refused')
+            return labels | {'nt'}
+        # accepted: the planes meant are the whole numbers next to the values given
+        _judge_normals(got, idx, V, cond, 'plane_crystal_to_cartesian(%r) (accepted as integer planes)' % (arg.tolist(),))
+        labels.add('accepted')
+        if emax > 0:
+            labels.add('nt')
+        return labels
+
+    if kind == 'guard':
+        idx = np.array(case['idx'], dtype=np.int64)
+        Q = _four_of(idx).astype(float) / case['den']
+        amax = max(1.0, float(np.abs(Q).max()))
+        d = case['delta'] * amax
+        B = Q.copy()
+        rows = B.reshape(-1, 4)
+        rows[case['where'] % len(rows), case['where'] % 3] += d
+        rel = abs(case['delta'])
+        labels.add('delta_1e%d' % int(math.floor(math.log10(rel))))
+        box = am.Box(a=case['hexcell'][0], b=case['hexcell'][1], c=case['hexcell'][2], alpha=90.0, beta=90.0, gamma=120.0)
+        for fn, name in ((miller.vector4to3, 'u+v+t'), (miller.plane4to3, 'h+k+i'), (box.vector_crystal_to_cartesian, 'u+v+t')):
+            try:
+                out = np.asarray(fn(B))
+            except ValueError as e:
+                require('Invalid indices' in str(e), lambda: '%s refused %r with an undocumented message: %s' % (fn.__name__, B.tolist(), e))
+                # an excess at the level of floating-point rounding of the indices themselves is not '!= 0'
+                require(abs(d) > 64 * EPS * amax, lambda: '%s(%r) refused a quadruple whose first three indices sum to %.3g (rounding level)' % (fn.__name__, B.tolist(), d))
+                labels.add('refused')
+                continue
+            require(rel < 1e-6, lambda: '%s(%r): %s = %.3g (%.1e of the largest index) but the quadruple was accepted: %r'
+                    % (fn.__name__, B.tolist(), name, d, rel, out.tolist()))
+            # accepted: the answer is that of the exact quadruple up to what the excess explains
+            exact = np.asarray(fn(Q))
+            scale = float(np.abs(exact).max()) / amax
+            require(float(np.abs(out - exact).max()) <= 4 * abs(d) * max(scale, 1.0) + 64 * EPS * float(np.abs(exact).max()),
+                    lambda: '%s: quadruple %r (sum off by %.3g) -> %r, exact quadruple -> %r' % (fn.__name__, B.tolist(), d, out.tolist(), exact.tolist()))
+            labels.add('accepted')
+        labels.add('nt')
+        return labels
+    raise ValueError('unknown kind %r' % kind)
+
+
+# ----------------------------------------------------------------------------- clause decades (class F)
+
+def oracle_decades(case):
+    """one array argument whose rows span many orders of magnitude: each row judged relative to ITS OWN magnitude and against the
+    call made with that row alone"""
+    am, miller = _am()
+    op = case['op']
+    labels = {'op_' + op, 'shape_' + case['shape']}
+    T = np.array([t for t, e in case['rows']], dtype=np.int64)
+    if op in ('normal', 'reduce'):
+        G = [int(e) for t, e in case['rows']]
+        A = np.array([[x * g for x in t] for (t, e), g in zip(case['rows'], G)], dtype=np.int64)
+        mags = np.array([float(g) for g in G])
+    else:
+        S = np.array([2.0 ** e for t, e in case['rows']])
+        A = T.astype(float) * S[:, None]
+        mags = S
+    span = math.log10(float(mags.max() / mags.min()))
+    labels.add('span>=%d' % (4 * int(span // 4)))
+    four = bool(case.get('four'))
+    if four:
+        A = np.stack([A[..., 0], A[..., 1], -(A[..., 0] + A[..., 1]), A[..., 2]], axis=-1)
+        labels.add('four')
+    shape = (lambda X: X[None, ...]) if case['shape'] == 'MN' else (lambda X: X)
+    unshape = (lambda X: np.asarray(X)[0]) if case['shape'] == 'MN' else np.asarray
+    n = len(A)
+
+    def each(fn, what, judge, ulps=4):
+        """fn on the whole array and on every row alone; judge(i, row_result) raises for a wrong row"""
+        whole = unshape(fn(shape(A)))
+        require(whole.shape[0] == n, lambda: '%s returned shape %r for %d rows' % (what, whole.shape, n))
+        for i in range(n):
+            one = np.asarray(fn(A[i]))
+            judge(i, whole[i], '%s, row %d of %r' % (what, i, A.tolist()))
+            m = float(np.abs(one).max())
+            require(float(np.abs(whole[i] - one).max()) <= ulps * EPS * m,
+                    lambda: '%s: row %d of the array %r -> %r, the same row alone -> %r' % (what, i, A.tolist(), whole[i].tolist(), one.tolist()))
+        return whole
+
+    if op in ('vector', 'normal'):
+        cell = case['cell']
+        V = _cellV(cell)
+        cond = float(np.linalg.cond(V))
+        box = am.Box(vects=V)
+        hexa = _hexa(cell)
+        for x in ('sym', 'tilt'):
+            if cell.get(x):
+                labels.add('cell_' + x)
+        if op == 'vector':
+            fn = box.vector_crystal_to_cartesian if case['via'] == 'box' else (lambda a: miller.vector_crystal_to_cartesian(a, box))
+            exp = ref.hex_cart_vector(A, V) if four else A @ V
+            vmax = float(np.abs(V).max())
+
+            def judge(i, r, what):
+                tol = (_vfloor(V) + 8 * EPS) * vmax * float(np.abs(A[i]).sum()) * (3 if four else 1)
+                require(float(np.abs(r - exp[i]).max()) <= tol, lambda: '%s = %r, expected %r (tol %.3g: relative to that row)' % (what, r.tolist(), exp[i].tolist(), tol))
+            each(fn, 'vector_crystal_to_cartesian', judge)
+        else:
+            fn = box.plane_crystal_to_cartesian if case['via'] == 'box' else (lambda a: miller.plane_crystal_to_cartesian(a, box))
+            P = A[..., [0, 1, 3]] if four else A
+
+            def judge(i, r, what):
+                _judge_normals(r, P[i], V, cond, what)          # tolerance from |indices| of that row alone
+            each(fn, 'plane_crystal_to_cartesian', judge, ulps=0)
+    elif op == 'centering':
+        s = case['setting']
+        labels.add('set_' + s)
+        C2P, P2C = _check_centring_matrices(miller, s)
+        for fn, M in ((miller.vector_conventional_to_primitive, C2P), (miller.vector_primitive_to_conventional, P2C)):
+            exp = A @ M
+
+            def judge(i, r, what):
+                tol = 8 * EPS * float(np.abs(A[i]).sum())
+                require(float(np.abs(r - exp[i]).max()) <= tol, lambda: '%s = %r, expected %r (tol %.3g: relative to that row)' % (what, r.tolist(), exp[i].tolist(), tol))
+            each(lambda a: fn(a, setting=s), '%s(setting=%r)' % (fn.__name__, s), judge)
+    elif op == 'conv34':
+        if four:
+            # quadruples [U V T W] with U+V+T = 0 exactly (dyadic scaling of integers)
+            def judge_v(i, r, what):
+                e = np.array([2 * A[i, 0] + A[i, 1], 2 * A[i, 1] + A[i, 0], A[i, 3]])
+                require(float(np.abs(r - e).max()) == 0.0, lambda: '%s = %r, expected [2U+V, 2V+U, W] = %r' % (what, r.tolist(), e.tolist()))
+            each(miller.vector4to3, 'vector4to3', judge_v, ulps=0)
+
+            def judge_p(i, r, what):
+                require(float(np.abs(r - A[i, [0, 1, 3]]).max()) == 0.0, lambda: '%s = %r, expected (h k l)' % (what, r.tolist()))
+            each(miller.plane4to3, 'plane4to3', judge_p, ulps=0)
+        else:
+            def judge_v(i, r, what):
+                u, v, w = A[i]
+                e = np.array([(2 * u - v) / 3, (2 * v - u) / 3, -(u + v) / 3, w])
+                tol = 8 * EPS * float(np.abs(A[i]).max())
+                require(float(np.abs(r - e).max()) <= tol, lambda: '%s = %r, expected %r (tol %.3g: relative to that row)' % (what, r.tolist(), e.tolist(), tol))
+                back = miller.vector4to3(r)
+                require(float(np.abs(back - A[i]).max()) <= 2 * tol, lambda: 'vector4to3(%s) = %r' % (what, back.tolist()))
+            w4 = each(miller.vector3to4, 'vector3to4', judge_v)
+            back = unshape(miller.vector4to3(shape(w4)))
+            for i in range(n):
+                require(float(np.abs(back[i] - A[i]).max()) <= 32 * EPS * float(np.abs(A[i]).max()),
+                        lambda: 'vector4to3(vector3to4(A)) row %d = %r, A = %r' % (i, back[i].tolist(), A[i].tolist()))
+
+            def judge_p(i, r, what):
+                e = np.array([A[i, 0], A[i, 1], -(A[i, 0] + A[i, 1]), A[i, 2]])
+                require(float(np.abs(r - e).max()) == 0.0, lambda: '%s = %r, expected %r' % (what, r.tolist(), e.tolist()))
+            each(miller.plane3to4, 'plane3to4', judge_p, ulps=0)
+    elif op == 'reduce':
+        def judge(i, r, what):
+            _judge_reduce(r, A[i])
+        each(miller.reduce_indices, 'reduce_indices', judge, ulps=0)
+    else:
+        raise ValueError('unknown op %r' % op)
+    if span >= (8 if op not in ('normal',) else 4):
+        labels.add('nt')
+    return labels
+
+
+# ----------------------------------------------------------------------------- clause structured (class G)
+
+def oracle_structured(case):
+    am, miller = _am()
+    cell = case['cell']
+    sy = cell['sym']
+    V = _cellV(cell)
+    cond = float(np.linalg.cond(V))
+    vform = case['vform']
+    if vform == 'f32':
+        V = V.astype(np.float32).astype(np.float64)
+        Vin = V.astype(np.float32)
+    elif vform == 'list':
+        Vin = V.tolist()
+    elif vform == 'fortran':
+        Vin = np.array(V, order='F')
+    else:
+        Vin = V.copy()
+    box = am.Box(vects=Vin)
+    _spoil(Vin)
+    relab = _rows_relabelled(cell)
+    labels = {'fam_' + cell['family'], 'rows_relabelled' if relab else 'axes_only', 'vform_' + vform}
+    low = bool(V[0, 1] == 0 and V[0, 2] == 0 and V[1, 2] == 0)
+    upp = bool(V[1, 0] == 0 and V[2, 0] == 0 and V[2, 1] == 0)
+    labels.add('diagonal' if (low and upp) else ('lower_triangular' if low else ('upper_triangular' if upp else 'zeros_elsewhere' if (V == 0).any() else 'full')))
+    if low and (np.diag(V) < 0).any():
+        labels.add('negative_diagonal')
+    hexa = _hexa(cell)
+    idxl = case['idx']
+    idx = np.array(idxl, dtype=np.int64)
+    sub = set()
+    got = _do_normal(miller, box, V, cond, hexa, idxl, case['uvw'], case['via'], False, case['form'], sub)
+    labels.update(x for x in sub if x.startswith('br_') or x == 'in_zone')
+    # mirrored: (-h -k -l) is the same plane seen from the other side
+    neg = _do_normal(miller, box, V, cond, hexa, (-idx).tolist(), case['uvw'], case['via'], False, 'int', set())
+    require(float(np.abs(np.asarray(neg) + np.asarray(got)).max()) <= 4 * EPS, lambda: 'normal of (-h -k -l) = %r is not minus the normal of (h k l) = %r for %r'
+            % (np.asarray(neg).tolist(), np.asarray(got).tolist(), idxl))
+    # cyclically relabelled: (k l h) in the cell (b, c, a) is the same plane
+    Vc = V[[1, 2, 0], :]
+    boxc = am.Box(vects=Vc)
+    gotc = _do_normal(miller, boxc, Vc, cond, _model_preds(_params_of(Vc))['hexagonal'], idx[..., [1, 2, 0]].tolist(), [[t[1], t[2], t[0]] for t in case['uvw']],
+                      case['via'], False, 'int', set())
+    tol = 2 * _tolN(cond, int(np.abs(idx).max()), _vfloor(V))
+    require(float(np.abs(np.asarray(gotc) - np.asarray(got)).max()) <= tol, lambda: 'normal of (k l h) in the cell (b, c, a) = %r differs from the normal of (h k l) in (a, b, c) = %r'
+            % (np.asarray(gotc).tolist(), np.asarray(got).tolist()))
+    # vectors, among them exact halves / quarters
+    _do_vector(miller, box, V, hexa, idxl, case['via'], False, case['form'], case['den'], sub)
+    if case['den'] != 1:
+        labels.add('fractional')
+    # family: unchanged by a signed permutation of the Cartesian axes; after relabelling a, b, c my reading of the documented definitions
+    # (a relabelled cell - e.g. a tetragonal lattice with its unique axis along a - is not 'made by a family constructor': the property's
+    # quantifier leaves it out, and the docstrings' "a != b != c" does not say which pairs are meant; only consistency is asked there)
+    _judge_family(box, None if relab else cell['family'], case['via_f'], lambda: 'the cell %r' % (V.tolist(),))
+    if hexa:
+        labels.add('hexagonal_now')
+        got4 = _do_normal(miller, box, V, cond, True, idxl, case['uvw'], case['via'], True, 'int', set())
+        require(float(np.abs(np.asarray(got4) - np.asarray(got)).max()) <= 4 * EPS, lambda: '(hkil) normals %r differ from (hkl) normals %r' % (np.asarray(got4).tolist(), np.asarray(got).tolist()))
+    if any(_has_mixed(t) for t in idx.reshape(-1, 3).tolist()) or relab:
+        labels.add('nt')
+    return labels
+
+
+# ----------------------------------------------------------------------------- clause options_enum (class H)
+
+_OPT_BLOCK = np.array([[1, 0, 0], [0, 1, 0], [0, 0, 1], [1, -2, 3], [-4, 5, 6], [2, 2, -2], [3, -3, 0], [-1, -1, -1]], dtype=np.int64)
+
+
+def oracle_options(case):
+    """ENUMERATED ordered combinations of calls that could share state: every call judged when made, the arrays of the earlier calls
+    re-compared bit for bit after the later ones, the first call repeated at the end"""
+    am, miller = _am()
+    kind = case['kind']
+    labels = {'kind_' + kind}
+    led = _Ledger()
+    if kind == 'centring':
+        calls = [g16.CENTRING_CALLS[i] for i in case['calls']]
+        first = None
+        seq = calls + [calls[0]]
+        for n, (s, d) in enumerate(seq):
+            fn, inv = (miller.vector_conventional_to_primitive, miller.vector_primitive_to_conventional)
+            if d == 'p2c':
+                fn, inv = inv, fn
+            what = '%s(setting=%r) as call %d of %r' % (fn.__name__, s, n + 1, seq)
+            T = _OPT_BLOCK.copy()
+            r = fn(T, setting=s)
+            M = fn(np.eye(3), setting=s)
+            # judged by the centring oracles: inverse pair, integer c2p with det = lattice points per cell, membership, round trip
+            C2P, P2C = _check_centring_matrices(miller, s)
+            _membership(s, P2C, 'primitive cell vectors')
+            want = C2P if d == 'c2p' else P2C
+            require(np.array_equal(M, want) and float(np.abs(r - T.astype(float) @ want).max()) <= 64 * EPS * 6 * 3,
+                    lambda: '%s = %r is not the block times its own matrix %r' % (what, r.tolist(), want.tolist()))
+            back = inv(r, setting=s)
+            require(float(np.abs(back - T).max()) <= 64 * EPS * 6, lambda: '%s: round trip gives %r' % (what, back.tolist()))
+            _untouched(T, _OPT_BLOCK, what)
+            if n == 0:
+                first = (_bits(r), _bits(M))
+            if n == len(seq) - 1:
+                require((_bits(r), _bits(M)) == first, lambda: '%s: result differs from the first time the same call was made' % what)
+            led.add(what, r)
+            led.add(what + ' (matrix)', M)
+            led.check(what)
+        sets = [s for s, d in calls]
+        labels.add('settings=%d' % len(set(sets)))
+        if {'t1', 't2'} <= set(sets):
+            labels.add('t1_and_t2')
+        if len({s[0] for s in sets}) < len(sets):
+            labels.add('shared_table')
+        if any(s != 'p' for s in sets):
+            labels.add('nt')
+        return labels
+    if kind == 'all_indices':
+        seq = case['calls'] + [case['calls'][0]]
+        first = None
+        for n, (m, red) in enumerate(seq):
+            got = miller.all_indices(maxindex=m, reduce=red)
+            rng = range(-m, m + 1)
+            allt = [(u, v, w) for u in rng for v in rng for w in rng if (u, v, w) != (0, 0, 0)]
+            exp = {t for t in allt if ref.gcd_reduce(t) == 1} if red else set(allt)
+            gs = [tuple(int(x) for x in r) for r in np.asarray(got).tolist()]
+            require(len(set(gs)) == len(gs) and set(gs) == exp, lambda: 'all_indices(maxindex=%d, reduce=%r) as call %d of %r: %d rows, expected %d' % (m, red, n + 1, seq, len(gs), len(exp)))
+            if n == 0:
+                first = _bits(got)
+            if n == len(seq) - 1:
+                require(_bits(got) == first, 'all_indices: result differs from the first time the same call was made')
+            led.add('all_indices(%d, %r)' % (m, red), got)
+            led.check('all_indices(%d, %r)' % (m, red))
+        return labels | {'nt'}
+    # family predicates with and without tolerance arguments, in both orders, on ONE Box object 1e-3 away from a higher-symmetry family
+    from atomman.tools import crystalsystem as cs
+    name, p = g16.FAM_BOXES[case['box']]
+    labels.add('box_' + name)
+    if name == 'hex_ab':
+        box = am.Box(a=p[0], b=p[1], c=p[2], alpha=90.0, beta=90.0, gamma=120.0)
+        abc = [p[0], p[1], p[2], 90.0, 90.0, 120.0]
+    else:
+        box = getattr(am.Box, name)(*p)
+        abc = [float(x) for x in _ctor_abc(name, p)]
+    seq = case['calls'] + [case['calls'][0]]
+    answers = []
+    for n, (f, o, via) in enumerate(seq):
+        fname, kw = g16.FAM_FUNCS[f], (g16.FAM_OPTS[o] or {})
+        pr = _model_preds(abc, kw.get('rtol', 1e-5), kw.get('atol', 1e-8))
+        want = _model_name(pr) if fname == 'identifyfamily' else pr[fname[2:]]
+        if want is None and fname != 'identifyfamily' or want == 'undecided':
+            raise RuntimeError('harness: enumerated family box %r is inside a tolerance band' % (name,))
+        with warnings.catch_warnings():
+            warnings.simplefilter('ignore')
+            got = getattr(box, fname)(**kw) if via == 'method' else getattr(cs, fname)(box, **kw)
+        got = got if fname == 'identifyfamily' else bool(got)
+        require(got == want, lambda: '%s(%s) [%s] as call %d of %r on one Box with a, b, c, alpha, beta, gamma = %r: %r, the documented definition and tolerances give %r'
+                % (fname, ', '.join('%s=%r' % kv for kv in sorted(kw.items())), via, n + 1, [(g16.FAM_FUNCS[a], g16.FAM_OPTS[b], c) for a, b, c in seq], abc, got, want))
+        answers.append(got)
+    if len({jd(g16.FAM_OPTS[o]) for f, o, v in case['calls']}) > 1:
+        labels.add('options_differ')
+        if answers[0] != answers[1] or g16.FAM_FUNCS[case['calls'][0][0]] != g16.FAM_FUNCS[case['calls'][1][0]]:
+            labels.add('nt')
+    return labels
+
+
 # ----------------------------------------------------------------------------- clauses
 
 CLAUSES = [
@@ -1291,19 +2203,19 @@ CLAUSES = [
     Clause('reduce_exh', oracle_reduce_exh, enumerate=g16.enum_reduce,
            desc='EXHAUSTIVE, one case = one (h,k) row of triples and induced quadruples: reduce_indices = v/gcd (coprime, same sense), idempotent; '
                 'all_indices(maxindex, reduce) equals the set of all / all coprime non-zero triples'),
-    Clause('random', oracle_random, g16.random_cases, quick=16000, thorough=300000,
+    Clause('random', oracle_random, g16.random_cases, quick=14500, thorough=300000,
            min_share={'nt': 0.25, 'op_normal': 0.18, 'op_reduce': 0.08, 'shape_MN': 0.15, 'shape_0': 0.09, 'in_zone': 0.03,
                       'refusal_nonhex': 0.05, 'four': 0.1, 'form_list': 0.12, 'fam_monoclinic': 0.035, 'fam_rhombohedral': 0.035,
                       'fam_triclinic': 0.08, 'fractional': 0.07, 'form_tuple': 0.03, 'form_i32': 0.03, 'form_nc': 0.03,
                       'form_fortran': 0.03, 'form_ro': 0.03, 'form_npscalars': 0.03,
                       'narrow': 0.15, 'dt_overflow': 0.035, 'form_i8': 0.024, 'form_u8': 0.024, 'form_i16': 0.02, 'form_u16': 0.008,
                       'form_u32': 0.008, 'form_u64': 0.008, 'form_i32w': 0.012, 'form_i64w': 0.01, 'form_be16': 0.009, 'form_be32': 0.011,
-                      'form_be64': 0.01, 'form_bool': 0.008},
+                      'form_be64': 0.01, 'form_bool': 0.008, 'fnarrow': 0.012},
            max_share={'refusal_nonhex': 0.25},
            desc='one operation per case (normal+zone law, vector, 3<->4, centring, reduce) on index arrays of leading shape (), (N,), (M,N), '
                 'indices up to 12, list/int/float input, random cells, 4-index input accepted exactly in hexagonal cells; 30 % of the blocks are '
                 'int8/int16/uint8-64/big-endian/bool/large-valued int32/int64 arrays with indices over the whole range of the dtype'),
-    Clause('box_history', oracle_box_history, g16.box_history_cases, quick=2500, thorough=60000,
+    Clause('box_history', oracle_box_history, g16.box_history_cases, quick=2300, thorough=60000,
            min_share={'nt': 0.33, 'requery_normal': 0.28, 'requery_vector': 0.13, 'requery_family': 0.08, 'requery_with_four': 0.14,
                       'changed': 0.33, 'hex_toggled': 0.17, 'holder_system': 0.22, 'via_box_set': 0.08, 'mod_set_abc': 0.1,
                       'mod_vects_attr': 0.09, 'mod_set_vects': 0.065, 'mod_set_avect': 0.08, 'mod_model': 0.085, 'mod_model_json': 0.07,
@@ -1311,28 +2223,67 @@ CLAUSES = [
                       'rel_rotated_prev': 0.12, 'rel_same': 0.08, 'fam_intvects': 0.055, 'scribble': 0.075, 'origin_only': 0.15,
                       'result_overwritten': 0.33, 'q_read': 0.14, 'q_family': 0.12, 'rotated': 0.2,
                       'narrow': 0.35, 'dt_overflow': 0.11, 'form_i8': 0.17, 'form_u8': 0.055, 'form_i16': 0.03, 'form_u16': 0.03,
-                      'form_u32': 0.03, 'form_u64': 0.025, 'form_be16': 0.022, 'form_be32': 0.02, 'form_be64': 0.025, 'form_i64w': 0.03},
+                      'form_u32': 0.03, 'form_u64': 0.025, 'form_be16': 0.022, 'form_be32': 0.02, 'form_be64': 0.025, 'form_i64w': 0.03,
+                      'ledger': 0.38, 'vform_f32': 0.08, 'fnarrow': 0.045},
            desc='HISTORY on one Box object (half of them held by a System): built through any constructor route, queried (normals + zone law, '
                 'vectors, family, derived attributes in varying order; 3- and 4-index, every input form), changed IN PLACE through every public route '
                 '(box.vects = ..., set(vects|avect..|a..|lx..|xlo..), model(), System.box_set with and without scale, set()), origin-only changes, '
                 'overwriting arrays handed in or out, deepcopy, replacement by a new object - and the SAME planes/vectors/family queried again: every '
                 'answer is judged against the cell as it is now'),
-    Clause('call_history', oracle_call_history, g16.call_history_cases, quick=1500, thorough=40000,
+    Clause('call_history', oracle_call_history, g16.call_history_cases, quick=1400, thorough=40000,
            min_share={'nt': 0.38, 'related': 0.3, 'mixed': 0.13, 'several_kinds': 0.25, 'settings_mixed': 0.1, 't1_and_t2': 0.025,
                       'cells_mixed': 0.12, 'op_centering': 0.19, 'op_normal': 0.17, 'op_strings': 0.04, 'op_family': 0.035,
-                      'narrow': 0.14, 'dt_overflow': 0.03},
+                      'narrow': 0.14, 'dt_overflow': 0.03, 'fnarrow': 0.02},
            desc='HISTORY of module-level calls in one process: 2-5 complete cases of the clauses random / strings / family (half of the sequences: '
                 'one index block through the same operation with another centring setting / the same lattice in another orientation / another '
                 'lattice in the same orientation / the identical call), each judged by its own oracle, then all repeated in another order'),
-    Clause('strings', oracle_strings, g16.string_cases, quick=6000, thorough=100000,
+    Clause('ledger', oracle_ledger, g16.ledger_cases, quick=700, thorough=25000,
+           min_share={'nt': 0.33, 'spoil_in': 0.3, 'spoil_out': 0.2, 'recall': 0.18, 'recall_same_box': 0.04, 'several_kinds': 0.38, 'op_normal': 0.28,
+                      'op_vector': 0.18, 'op_centering': 0.18, 'op_conv34': 0.12, 'op_reduce': 0.1, 'op_strings': 0.09, 'cell_sym': 0.18, 'narrow': 0.2,
+                      'fnarrow': 0.04},
+           desc='RESULT LEDGER + CALLER-SIDE MUTATION: 2-4 complete cases of the clauses random / strings in one process (plane normals, vectors, 3<->4, '
+                'centring, reduce, fromstring; several Box objects, shared and different cells), each judged by its own oracle; every array handed in or out '
+                'is kept with a private copy and compared bit for bit after every later call; then the caller overwrites in place the arrays it handed in / '
+                'got back and repeats calls with fresh arguments or on the same Box: nothing else may move, repeated calls return the same bits'),
+    Clause('units', oracle_units, g16.units_cases, quick=600, thorough=20000,
+           min_share={'nt': 0.35, 'W_SI': 0.08, 'W_seed': 0.08, 'W_named': 0.3, 'back': 0.2, 'pre_default': 0.3, 'pre_other': 0.06, 'via_model': 0.2,
+                      'kind_family': 0.15, 'kind_normal': 0.17, 'kind_vector': 0.14, 'cell_sym': 0.17},
+           desc='WORKING UNITS: plane normals + zone law / vectors / family identification for one physical cell under reset_units(named units | integer '
+                'seed | SI), judged before under the default or another configuration and afterwards under the restored default in the same process; '
+                'the cell optionally read from a Box data model written under those units; documented atol passed as 1e-8 angstrom'),
+    Clause('near', oracle_near, g16.near_cases, quick=2000, thorough=60000,
+           min_share={'nt': 0.45, 'kind_family': 0.18, 'kind_tilt': 0.16, 'kind_almost_int': 0.07, 'kind_guard': 0.06, 'coincident': 0.1, 'distinct': 0.06,
+                      'opts': 0.07, 'in_cleanup_window': 0.08, 'refused': 0.1, 'accepted': 0.035, 'four_accepted': 0.028, 'four_refused': 0.01,
+                      'name_cubic': 0.028, 'name_tetragonal': 0.028, 'name_hexagonal': 0.045, 'name_None': 0.025},
+           desc='NEAR-THRESHOLD: family parameters 1e-12 ... 1e-3 (relative) off a higher-symmetry family, default and explicit rtol / atol, judged by my own '
+                'reading of the documented definitions outside a factor-3 band around each tolerance (4-index acceptance included); cells with tilts of '
+                '1e-12 ... 1e-3 of the cell; plane indices almost whole numbers (documented refusal or the rounded plane); quadruples with h+k+i almost 0'),
+    Clause('decades', oracle_decades, g16.decades_cases, quick=1200, thorough=40000,
+           min_share={'nt': 0.45, 'op_vector': 0.11, 'op_normal': 0.15, 'op_centering': 0.06, 'op_conv34': 0.08, 'op_reduce': 0.08, 'four': 0.09,
+                      'span>=16': 0.2, 'cell_sym': 0.14, 'shape_MN': 0.15},
+           desc='MANY DECADES IN ONE CALL: index rows spanning up to 24 orders of magnitude (planes 4-5, reduce 15) in one array: every row judged relative '
+                'to its own magnitude and against the call with that row alone'),
+    Clause('structured', oracle_structured, g16.structured_cases, quick=900, thorough=30000,
+           min_share={'nt': 0.4, 'rows_relabelled': 0.16, 'axes_only': 0.33, 'lower_triangular': 0.13, 'negative_diagonal': 0.06, 'upper_triangular': 0.025,
+                      'diagonal': 0.014, 'fractional': 0.26, 'hexagonal_now': 0.08, 'vform_f32': 0.06, 'vform_list': 0.09},
+           desc='EXACTLY STRUCTURED CELLS: exact signed permutations of the lattice vectors and of the Cartesian axes of a family cell (upper / lower '
+                'triangular, negative diagonal, zeros in unusual places; list / int / float32 / Fortran vectors): normals + zone law, the mirrored and the '
+                'cyclically relabelled case, vectors with exact halves, family identification'),
+    Clause('options_enum', oracle_options, enumerate=g16.enum_options,
+           min_share={'nt': 0.3, 'kind_family': 0.35, 'kind_centring': 0.08, 'options_differ': 0.24, 't1_and_t2': 0.01, 'shared_table': 0.05},
+           desc='ENUMERATED ordered combinations of calls sharing a table or an object: every ordered pair and (thorough: every; quick: table-sharing) '
+                'ordered triple of the 16 centring calls (8 settings x 2 directions), ordered pairs of all_indices(maxindex, reduce), ordered pairs of the 8 '
+                'family functions x 3 tolerance options x method / function on one Box 1e-3 away from a higher-symmetry family; first call repeated last'),
+    Clause('strings', oracle_strings, g16.string_cases, quick=5500, thorough=100000,
            min_share={'nt': 0.4, 'fraction': 0.2, 'br_bare': 0.09, 'br_{': 0.09, 'n4': 0.18},
            desc='index strings of the documented grammar parse to fraction x the integers shown'),
-    Clause('strings_fuzz', oracle_fuzz, g16.fuzz_cases, quick=4000, thorough=150000,
+    Clause('strings_fuzz', oracle_fuzz, g16.fuzz_cases, quick=3600, thorough=150000,
            min_share={'nt': 0.25, 'refused': 0.18, 'strict': 0.2, 'wide': 0.08, 'accepted_shown': 0.06},
            desc='random ASCII and mutated grammar strings: strict-grammar strings parse to what they show; others are refused cleanly '
                 '(ValueError, the two documented assertion messages, ZeroDivisionError) or return 3/4 floats equal to the numbers shown when a wider reading exists'),
-    Clause('family', oracle_family, g16.family_cases, quick=4000, thorough=80000,
-           min_share={'nt': 0.45, 'rotated': 0.28, 'via_function': 0.2, 'fam_rhombohedral': 0.09, 'fam_monoclinic': 0.12, 'fam_cubic': 0.03},
+    Clause('family', oracle_family, g16.family_cases, quick=3600, thorough=80000,
+           min_share={'nt': 0.45, 'rotated': 0.28, 'via_function': 0.2, 'fam_rhombohedral': 0.09, 'fam_monoclinic': 0.12, 'fam_cubic': 0.03,
+                      'ptyped': 0.1, 'ptype_pyint': 0.05},
            desc='Box.<family>(generic parameters), optionally rigidly rotated: identifyfamily() names that family and exactly that is<family>() predicate holds '
                 '(Box methods and the stand-alone functions)'),
 ]
